@@ -26,7 +26,7 @@ func Repair(ff []Feature) []Feature {
 	// Identify the features with similar keys and values.
 	index := make(map[string][]int)
 	for i, f := range gg {
-		key := fmt.Sprintf("%s:%v", f.Key, f.Props)
+		key := fmt.Sprintf("%s:%q", f.Key, [][]string(f.Props))
 		index[key] = append(index[key], i)
 	}
 
